@@ -44,6 +44,7 @@ import (
 	"strconv"
 	"strings"
 	"testing"
+	"unicode"
 	"unicode/utf8"
 
 	"github.com/tucats/ego/internal/language/bytecode"
@@ -443,6 +444,40 @@ func intFeature(lit string, neg bool) string {
 	return s
 }
 
+// intSig names the root-cause region of a failing integer literal. The
+// regions are disjoint and ordered: -2^63 (any spelling) is attributed to the
+// sign; otherwise a spelling with a separator to the separator; otherwise a
+// radix-prefixed spelling wider than 31 bits to the width; anything else is
+// described in full.
+func intSig(lit string, neg bool) string {
+	p, n := intPrefix(lit)
+	sep := digitSepClass(lit, n)
+	feat := intFeature(lit, neg)
+	wide := strings.Contains(feat, "mag=gt31bit") || strings.Contains(feat, "mag=2^63")
+	switch {
+	case strings.Contains(feat, "mag=2^63"):
+		return "most-negative"
+	case sep != "none" && p == "dec":
+		return "underscore=" + sep + " radix=dec"
+	case sep != "none":
+		return "underscore=" + sep + " radix=prefixed"
+	case p != "dec" && wide:
+		return "radix-prefixed wider-than-int32"
+	}
+	return feat
+}
+
+func imagSig(lit string) string {
+	num := strings.TrimSuffix(lit, "i")
+	f := imagFeature(lit)
+	if strings.HasPrefix(f, "base=int") {
+		if p, _ := intPrefix(num); p != "dec" && p != "0" {
+			return "base=radix-prefixed-int"
+		}
+	}
+	return f
+}
+
 func imagFeature(lit string) string {
 	num := strings.TrimSuffix(lit, "i")
 	if strings.ContainsAny(num, ".pP") || (!isHexFloat(num) && strings.ContainsAny(num, "eE")) {
@@ -527,31 +562,50 @@ func kindsOf(els []element) []string {
 	return ks
 }
 
-// rawStructure names the line-structure features of a raw string body.
+// rawStructure names the line-structure features of a multi-line raw string
+// body ("blank" is any Unicode white space).
 func rawStructure(body string) []string {
 	var fs []string
 	lines := strings.Split(body, "\n")
-	if len(lines) > 1 {
-		for i, l := range lines {
-			if i > 0 && (strings.HasPrefix(l, " ") || strings.HasPrefix(l, "\t")) {
-				fs = append(fs, "line-leading-blank")
-				break
-			}
+	if len(lines) < 2 {
+		return nil
+	}
+	lead := func(l string) bool { r, _ := utf8.DecodeRuneInString(l); return l != "" && unicode.IsSpace(r) }
+	trail := func(l string) bool { r, _ := utf8.DecodeLastRuneInString(l); return l != "" && unicode.IsSpace(r) }
+	last := lines[len(lines)-1]
+	if lead(last) {
+		fs = append(fs, "last-line-leading-blank")
+	}
+	if last == "" {
+		fs = append(fs, "ends-with-newline")
+	}
+	for i, l := range lines {
+		if i > 0 && i < len(lines)-1 && lead(l) {
+			fs = append(fs, "inner-line-leading-blank")
+			break
 		}
-		for i, l := range lines {
-			if i < len(lines)-1 && (strings.HasSuffix(l, " ") || strings.HasSuffix(l, "\t")) {
-				fs = append(fs, "line-trailing-blank")
-				break
-			}
+	}
+	for i, l := range lines {
+		if i < len(lines)-1 && trail(l) {
+			fs = append(fs, "line-trailing-blank")
+			break
 		}
-		for i, l := range lines {
-			if i > 0 && i < len(lines)-1 && l == "" {
-				fs = append(fs, "empty-line")
-				break
-			}
+	}
+	for i, l := range lines {
+		if i > 0 && i < len(lines)-1 && l == "" {
+			fs = append(fs, "empty-line")
+			break
 		}
 	}
 	return fs
+}
+
+var rawStructureAtoms = map[string]string{
+	"last-line-leading-blank":  "`a\n b`",
+	"ends-with-newline":        "`a\n`",
+	"inner-line-leading-blank": "`a\n b\nc`",
+	"line-trailing-blank":      "`a \nb`",
+	"empty-line":               "`a\n\nb`",
 }
 
 // features returns the label(s) of a case and, for string classes, the
@@ -591,14 +645,7 @@ func features(c Case) (feat []string, atoms map[string]string) {
 		feat = kindsOf(els)
 		for _, f := range rawStructure(body) {
 			feat = append(feat, f)
-			switch f {
-			case "line-leading-blank":
-				atoms[f] = "`a\n b`"
-			case "line-trailing-blank":
-				atoms[f] = "`a \nb`"
-			case "empty-line":
-				atoms[f] = "`a\n\nb`"
-			}
+			atoms[f] = rawStructureAtoms[f]
 		}
 		if len(feat) == 0 {
 			return []string{"empty"}, nil
@@ -627,6 +674,50 @@ func judge(c Case, want value) string {
 		return "g = " + describe(r.val)
 	}
 	return ""
+}
+
+// labelsFor turns the feature description into histogram labels. Numeric
+// features are products of several dimensions; each label names two of them so
+// that the histogram stays readable (the signature keeps the full product).
+func labelsFor(c Case, feat []string) []string {
+	var ls []string
+	kv := func(f string) map[string]string {
+		m := map[string]string{}
+		for _, w := range strings.Fields(f) {
+			if i := strings.IndexByte(w, '='); i > 0 {
+				m[w[:i]] = w[i+1:]
+			} else {
+				m[w] = "yes"
+			}
+		}
+		return m
+	}
+	switch c.Class {
+	case "int":
+		m := kv(feat[0])
+		ls = append(ls, "int prefix="+m["prefix"]+" sep="+m["sep"], "int prefix="+m["prefix"]+" mag="+m["mag"])
+		if c.Neg {
+			ls = append(ls, "int negated mag="+m["mag"])
+		}
+	case "float":
+		m := kv(feat[0])
+		ls = append(ls, "float form="+m["form"]+" shape="+m["shape"], "float form="+m["form"]+" exp="+m["exp"], "float form="+m["form"]+" sep="+m["sep"])
+		if m["lead0"] != "" {
+			ls = append(ls, "float leading-zero shape="+m["shape"])
+		}
+	case "imag":
+		m := kv(feat[0])
+		if m["base"] == "float" {
+			ls = append(ls, "imag base=float form="+m["form"]+" shape="+m["shape"], "imag base=float exp="+m["exp"]+" sep="+m["sep"])
+		} else {
+			ls = append(ls, "imag "+feat[0])
+		}
+	default:
+		for _, f := range feat {
+			ls = append(ls, c.Class+" "+f)
+		}
+	}
+	return ls
 }
 
 func nonTrivial(c Case, feat []string) bool {
@@ -662,9 +753,7 @@ func oracle(c Case) vkit.Outcome {
 	out.Key = fmt.Sprintf("%s|%v|%s|%d|%s", c.Class, c.Neg, c.Embed, c.Opt, c.Lit)
 	out.NonTrivial = nonTrivial(c, feat)
 	out.Labels = []string{"embed=" + c.Embed, fmt.Sprintf("opt=%d", c.Opt)}
-	for _, f := range feat {
-		out.Labels = append(out.Labels, c.Class+" "+f)
-	}
+	out.Labels = append(out.Labels, labelsFor(c, feat)...)
 
 	observed := judge(c, want)
 	if observed == "" {
@@ -673,6 +762,12 @@ func oracle(c Case) vkit.Outcome {
 	// Attribute the failure. For strings: which element kinds fail on their
 	// own (same embedding)? If none does, the combination is the signature.
 	sigFeat := feat
+	switch c.Class {
+	case "int":
+		sigFeat = []string{intSig(c.Lit, c.Neg)}
+	case "imag":
+		sigFeat = []string{imagSig(c.Lit)}
+	}
 	if atoms != nil {
 		var failing []string
 		keys := make([]string, 0, len(atoms))
@@ -724,13 +819,13 @@ func quoteLit(c Case) string {
 
 func gen(t *rapid.T) Case {
 	c := Case{}
-	c.Class = rapid.SampledFrom([]string{"int", "int", "float", "float", "imag", "rune", "rune", "string", "string", "raw", "minint"}).Draw(t, "class")
+	c.Class = rapid.SampledFrom([]string{"int", "int", "float", "float", "imag", "rune", "rune", "string", "string", "raw", "raw", "negint"}).Draw(t, "class")
 	switch c.Class {
 	case "int":
 		c.Lit = genInt(t, false)
-	case "minint":
+	case "negint":
 		c.Class, c.Neg = "int", true
-		if rapid.Bool().Draw(t, "exactmin") {
+		if rapid.IntRange(0, 2).Draw(t, "exactmin") == 0 {
 			c.Lit = genInt(t, true)
 		} else {
 			c.Lit = genInt(t, false)
